@@ -162,7 +162,13 @@ def gen_case(g, cid, force_kind=None):
         case['conf'].append({'k': 'real', 'text': 'status = %s' % own_status})
     # a symbol that a suite-supplied [assert] instruction needs as an integer: one case in a while defines a non-integer
     bad_int = g.random() < 0.12
-    case['setup'].append({'k': 'real', 'text': 'def string CASEINT = %s' % ('notAnInteger' if bad_int else '0'), 'fx': [['noop']]})
+    # (the value is reached through a second symbol: everything a reference reaches indirectly must be a string where an
+    # integer is expected - in one case in a while the inner symbol is a list)
+    inner_is_list = bad_int and g.random() < 0.5
+    case['setup'].append({'k': 'real', 'text': 'def %s CASEINNER = %s' % (('list', '0') if inner_is_list else
+                                                                         ('string', 'notAnInteger' if bad_int else '0')),
+                          'fx': [['noop']]})
+    case['setup'].append({'k': 'real', 'text': 'def string CASEINT = @[CASEINNER]@', 'fx': [['noop']]})
     # ... and one that a suite-supplied `stdout` assertion (a composite of parts, each with a validator) needs
     bad_int2 = (not bad_int) and g.random() < 0.12
     case['setup'].append({'k': 'real', 'text': 'def string CASEINT2 = %s' % ('notAnInteger' if bad_int2 else '0'), 'fx': [['noop']]})
